@@ -408,6 +408,7 @@ func (in *Interp) installStubs() {
 	in.installBitsetStubs()
 	in.installStringStubs()
 	in.installEnvStubs()
+	in.installFileStubs()
 	// errors: errors.New runs from its own SSA (it is &errorString{text}); fmt.Errorf builds a
 	// *fmt.wrapError (when %w wraps an error) or *errors.errorString with an opaque message.
 	in.stubs["fmt.Errorf"] = func(in *Interp, fn *ssa.Function, args []Value) Value {
